@@ -260,4 +260,21 @@ fire("c12-extra-exit", ["C12"], SOCK, "            if chunk_length != 0:\n      
 silent("c12-check-style", ["C12"], [(SOCK, 'if len(chunk) != chunk_length or term[-2:] != b"\\r\\n":', 'if len(chunk) < chunk_length or not term.endswith(b"\\r\\n"):')], "equivalent completeness tests")
 silent("c12-zero-chunk-else", ["C12"], [(SOCK, "                chunks += chunk\n\n            if chunk_length == 0:\n                # final chunk\n                break", "                chunks += chunk\n            else:\n                # final chunk\n                break")], "equivalent structure")
 
+# ----------------------------------------------------------------------------- C03 / C06
+fire("c03-msb-precedence", ["C03"], MSG, "msb = 1 << asiz - 1 if atyp in (INTS, INT) else 0", "msb = (1 << asiz) - 1 if atyp in (INTS, INT) else 0", "classic precedence slip: sign test against an all-ones mask")
+fire("c03-int-sub-half", ["C03"], MSG, "                val -= 1 << asiz\n", "                val -= 1 << asiz - 1\n")
+fire("c03-snt-no-negate", ["C03"], MSG, "                if bits & msb:\n                    val *= -1\n", "                if bits & msb:\n                    val *= 1\n")
+fire("c03-snt-mask", ["C03"], MSG, "                val = bits & msb - 1\n", "                val = bits & msb\n")
+fire("c03-offset-skip", ["C03"], MSG, "        offset += asiz\n", "        offset += asiz + (1 if atyp == CHA else 0)\n", "character fields advance one bit too far")
+fire("c03-shift-off-by-one", ["C03", "C06"], MSG, "self._payloadi >> (self._payblen - offset - asiz)", "self._payloadi >> (self._payblen - offset - asiz + 1)")
+fire("c03-mask-narrow", ["C03"], MSG, "& ((1 << asiz) - 1)", "& ((1 << asiz - 1) - 1)")
+fire("c03-scale-includes-one", ["C03"], MSG, "if ares not in (0, 1):  # apply any scaling factor\n                    val *= ares", "if ares not in (0, 1):  # apply any scaling factor\n                    val *= ares * 2") 
+fire("c03-scale-int-only", ["C03"], MSG, "                if ares not in (0, 1):  # apply any scaling factor", "                if ares not in (0, 1) and atyp in (INT, INTS):  # apply any scaling factor", "unsigned scaled fields left raw")
+fire("c03-str-zero", ["C03"], MSG, 'val = "" if val == 0 else chr(bits)', 'val = "" if val == 32 else chr(bits)')
+fire("c03-cha-ord", ["C03"], MSG, "                val = chr(bits)\n            else:  # all other types", "                val = chr(bits & 0x7F)\n            else:  # all other types", "characters above 127 mangled")
+fire("c03-payloadi-little", ["C03", "C06"], MSG, 'self._payloadi = int.from_bytes(self._payload, "big")', 'self._payloadi = int.from_bytes(self._payload, "little")')
+fire("c03-payblen-bytes", ["C03", "C06"], MSG, "self._payblen = len(self._payload) * 8", "self._payblen = len(self._payload) * 8 + 8", "reads one byte into non-existent data")
+silent("c03-value-style", ["C03"], [(MSG, "            if atyp == INT and bits & msb:  # 2's compliment -ve int\n                val -= 1 << asiz\n", "            if atyp == INT and bits >= msb:  # 2's compliment -ve int\n                val = val - (1 << asiz)\n")], "equivalent sign handling")
+silent("c03-negate-style", ["C03"], [(MSG, "                    val *= -1\n", "                    val = -val\n")], "equivalent negation")
+
 VARIANTS = V
